@@ -110,4 +110,59 @@ theorem sized_arith (t n c0 ci : Nat) (len : Nat → Nat) (ht : 0 < t) (hn : n <
   unfold maxCompressedSizeMulti
   omega
 
+/-- the same without the spare byte: Σ of per-job bounds ≤ the advertised multi bound -/
+theorem sized_arith' (t n c0 ci : Nat) (len : Nat → Nat) (ht : 0 < t) (hn : n < 2 ^ 62) (hn0 : 0 < n)
+    (hc : c0 + ci * (t - 1) ≤ 22 + 8 * t)
+    (h0 : len 0 ≤ piece t n 0 + 4 * (piece t n 0 / 16384) + c0)
+    (hi : ∀ i, 0 < i → i < t → len i ≤ piece t n i + 4 * (piece t n i / 16384) + ci) :
+    sumTo len t ≤ maxCompressedSizeMulti n t := by
+  have key : ∀ k, 0 < k → k ≤ t →
+      sumTo len k ≤ sumTo (piece t n) k + 4 * sumTo (fun i => piece t n i / 16384) k + c0 + ci * (k - 1) := by
+    intro k
+    induction k with
+    | zero => intro h; omega
+    | succ k ih =>
+      intro _ hk
+      by_cases hk0 : k = 0
+      · subst hk0; simp only [sumTo]; omega
+      · have := ih (by omega) (by omega)
+        have := hi k (by omega) (by omega)
+        have e : ci * (k + 1 - 1) = ci * (k - 1) + ci := by
+          have : k + 1 - 1 = (k - 1) + 1 := by omega
+          rw [this, Nat.mul_add, Nat.mul_one]
+        simp only [sumTo]; omega
+  have h1 := key t ht (Nat.le_refl t)
+  rw [sum_piece, bnd_top t n ht] at h1
+  have h2 := sum_piece_blocks t n t
+  rw [bnd_top t n ht] at h2
+  have h3 := maxCompressedSize_ge n hn hn0
+  unfold maxCompressedSizeMulti
+  omega
+
+theorem sumTo_congr (f g : Nat → Nat) : ∀ k, (∀ i, i < k → f i = g i) → sumTo f k = sumTo g k := by
+  intro k
+  induction k with
+  | zero => intro _; rfl
+  | succ k ih => intro h; simp only [sumTo, ih fun i hi => h i (by omega), h k (by omega)]
+
+theorem sumTo_take (l : List (List Nat)) : ∀ k, k ≤ l.length →
+    sumTo (fun i => (l.getD i []).length) k = ((l.take k).map List.length).sum := by
+  intro k
+  induction k with
+  | zero => intro _; rfl
+  | succ k ih =>
+    intro hk
+    have hlt : k < l.length := by omega
+    have e := ih (by omega)
+    rw [List.take_succ, List.getElem?_eq_getElem hlt]
+    simp only [sumTo, List.map_append, List.sum_append, Option.toList, List.map_cons, List.map_nil,
+      List.sum_cons, List.sum_nil, Nat.add_zero]
+    rw [e]
+    simp [List.getD_eq_getElem?_getD, List.getElem?_eq_getElem hlt]
+
+/-- `Σ_{i < |l|} |l[i]|` is the sum of the lengths -/
+theorem sumTo_lengths (l : List (List Nat)) :
+    sumTo (fun i => (l.getD i []).length) l.length = (l.map List.length).sum := by
+  rw [sumTo_take l l.length (Nat.le_refl _), List.take_length]
+
 end BV.Lemmas.Multi
